@@ -46,6 +46,7 @@ class FuncInfo(object):
         self.cls = cls                # ClassInfo or None
         self.outer = outer            # enclosing FuncInfo or None
         self.name = node.name
+        self.import_names = frozenset()   # names bound by module-level imports (set by Program)
 
     @property
     def fq(self):
@@ -158,6 +159,8 @@ class Program(object):
             self._index(m, m.top, "", None, None)
         for c in self.classes.values():
             c.bases = [self.resolve(c.module, b) or dump(b) for b in c.node.bases]
+        for f in self.funcs.values():
+            f.import_names = frozenset(self.modules[f.module].imports)
 
     # ---- indexing -------------------------------------------------------
     def _index(self, m, body, prefix, cls, outer):
